@@ -296,9 +296,12 @@ def program_tie(ctx, what, extra=()):
         seen.add(key)
         cases.append((name + " " + " ".join(args), text, list(args)))
     limit = 12 if ctx.quick() else 150
-    if len(cases) > limit:
-        step = len(cases) / float(limit)
-        cases = [cases[int(i * step)] for i in range(limit)]
+    nx = min(len(list(extra)), 6)
+    first, rest = cases[:nx], cases[nx:]        # what the check asks for explicitly always takes part
+    if len(rest) > limit:
+        step = len(rest) / float(limit)
+        rest = [rest[int(i * step)] for i in range(limit)]
+    cases = first + rest
     # two shipped structures always take part (one with a ligand and alternate locations when the tier allows)
     base = ["1FTJ-Chain-A", "3SGB-subset"] if ctx.quick() else ["1FTJ-Chain-A", "3SGB-subset", "1HPX", "4DFR", "conf-alt-AB-mutant"]
     for b in base:
